@@ -45,6 +45,10 @@ qn_t A1, A2, B;
 static void rec_call_rcu(struct rcu_head *head, void (*func)(struct rcu_head *head))
 {
 	G_rcu_calls++; G_rcu_head = head; G_rcu_func = (void *) func;
+	/* what call_rcu() does to the rcu_head AT ONCE, long before the grace period ends (src/urcu-call-rcu-impl.h, _call_rcu):
+	 * the head is initialised as a queue node and the callback stored.  A retired dummy must survive that: concurrent
+	 * dequeuers inside their read-side critical section may still be reading its next / dummy fields. */
+	head->next.next = 0; head->func = func;
 }
 #define SAT(k) ((k) < S_n ? &S(k) : (qn_t *) 0)
 #define INST(k) do { if ((k) < S_n) { S(k).next = SAT((k) + 1); S(k).dummy = 0; } } while (0)
@@ -103,6 +107,7 @@ void h_dequeue(void)
 	} else {
 		VERIF_ASSERT(G_rcu_calls == lead, "lfq dequeue: a leading dummy is retired through queue_call_rcu exactly once, never otherwise");
 		VERIF_ASSERT(!lead || (G_rcu_head == &D0->head && G_rcu_func == (void *) free_dummy_cb), "lfq dequeue: the dummy is handed to call_rcu with its own rcu_head and free_dummy_cb");
+		VERIF_ASSERT(!lead || (D0->parent.next == &A1 && D0->parent.dummy == 1 && D0->q == &q), "lfq dequeue: a retired dummy keeps its next / dummy fields intact after being handed to call_rcu (other dequeuers may still be reading it until the grace period ends; call_rcu writes the rcu_head immediately)");
 		if (nreal >= 2) {
 			VERIF_ASSERT(q.head == &A2 && A2.next == rest && A1.next == &A2, "lfq dequeue: head advanced to the next real node, rest of the chain untouched");
 		} else {
